@@ -4,7 +4,7 @@ from __future__ import annotations
 
 from ..nf import NF, Atom, Undecided, app, atoms_of, lift, nf_equal, single_atom, sym
 from ..values import NONE, Cond, DictV, ListV, NoneV, Num, ObjV, OpaqueV, StrV, TupleV, valkey
-from .common import ABSTRACT_SUMMARIES, N, Pdim, call_method, flatten, frame_sym, new_executor, norm_src, returns, run, symbolic_hyperparams
+from .common import mark, mark_index, ABSTRACT_SUMMARIES, N, Pdim, call_method, flatten, frame_sym, new_executor, norm_src, returns, run, symbolic_hyperparams
 
 EXPLANATION = (
     "Static decision for every wrapped change detector (an uninterpreted object) and statistic: (a) CLONE-DISCIPLINE - the detector "
@@ -73,8 +73,10 @@ def check_all(ctx, cls):
         kw = symbolic_hyperparams(ex, ctx.P, cls, {"change_detector": det})
         obj = ex.new_object(cls, [], kw)
         st["n_init"] = len(ex.events)
+        mark(ex, "init-done")
         call_method(ex, obj, "fit", frame_sym(ex, "Xtrain"))
         st["n_fit"] = len(ex.events)
+        mark(ex, "fit-done")
         call_method(ex, obj, "predict", frame_sym(ex, "X"))
         return obj
 
@@ -113,7 +115,7 @@ def check_all(ctx, cls):
     ok_clone = isinstance(cd_, ObjV) and cd_.meta.get("clone_of") is not None and cd_.meta["clone_of"].key == "user_detector" and cd_.key != "user_detector"
     ctx.check(ok_clone, rule, "change_detector_", fitm.loc(), "_fit stores a clone of the wrapped detector in change_detector_", found=repr(cd_))
     fits = [e for e in p.events if e.kind == "detector_fit"]
-    ok_fit = len(fits) == 1 and isinstance(cd_, ObjV) and fits[0].data["obj"].key == cd_.key and valkey(fits[0].data["data"]) == "[Xtrain]/[1]" and p.events.index(fits[0]) < st["n_fit"]
+    ok_fit = len(fits) == 1 and isinstance(cd_, ObjV) and fits[0].data["obj"].key == cd_.key and valkey(fits[0].data["data"]) == "[Xtrain]/[1]" and p.events.index(fits[0]) < mark_index(p, "fit-done")
     ctx.check(ok_fit, rule, "clone-fitted", fits[0].loc() if fits else fitm.loc(), "the clone is fitted on the training data during fit", found=[(e.data["obj"].key, valkey(e.data["data"])) for e in fits])
     trs = [e for e in p.events if e.kind in ("detector_transform", "detector_predict")]
     ok_tr = len(trs) == 1 and trs[0].kind == "detector_transform" and isinstance(cd_, ObjV) and trs[0].data["obj"].key == cd_.key and isinstance(trs[0].data["data"], Num) and nf_equal(trs[0].data["data"].nf, sym("X"))
